@@ -25,3 +25,19 @@ Proof.
          end; cbn [snd length]; try rewrite repeat_length; try reflexivity;
     rewrite firstn_length, app_length, repeat_length; cbn; lia.
 Qed.
+
+From Coq Require Import ZifyBool ZifyN.
+(* what a read/flush/NOP transfer does depends on the command byte and the length only *)
+Lemma spi_data_irrelevant r cmd d1 d2 :
+  mosi_data_matters cmd = false -> length d1 = length d2 -> spi r (cmd :: d1) = spi r (cmd :: d2).
+Proof.
+  unfold mosi_data_matters, spi. intros H L. rewrite L.
+  destruct (cmd <? 32) eqn:E1; [reflexivity|].
+  destruct (cmd <? 64) eqn:E2; [exfalso; lia|].
+  destruct (cmd =? 80) eqn:E3; [exfalso; lia|].
+  destruct (cmd =? 96) eqn:E4; [reflexivity|].
+  destruct (cmd =? 97) eqn:E5; [reflexivity|].
+  destruct ((cmd =? 160) || (cmd =? 176)) eqn:E6; [exfalso; lia|].
+  destruct ((168 <=? cmd) && (cmd <=? 173)) eqn:E7; [exfalso; lia|].
+  reflexivity.
+Qed.
